@@ -276,7 +276,7 @@ func (db *MultiBucketBackend) DeleteBucket(name string) (rerr error) {
 	}
 
 	// FIXME(bw): the error handling logic here is a little janky:
-	if err := db.bucketFs.RemoveAll(name); os.IsNotExist(err) {
+	if err := removeTree(db.bucketFs, name); os.IsNotExist(err) {
 		rerr = gofakes3.BucketNotFound(name)
 	} else if err != nil {
 		return err
@@ -307,7 +307,7 @@ func (db *MultiBucketBackend) ForceDeleteBucket(name string) error {
 	}
 
 	// Delete the bucket itself
-	if err := db.bucketFs.RemoveAll(name); err != nil {
+	if err := removeTree(db.bucketFs, name); err != nil {
 		return err
 	}
 
